@@ -194,6 +194,23 @@ func c03History(r *Run, h int, ts TxnSchema, next func(sh *shadow) *TxnJ) {
 			}
 			if !accepted[ti] {
 				r.Count("rejected")
+				// the outcome of a zero-timeout wait: "timed out" is an answer the reference has to agree
+				// with (the reference, told to run the transaction, must reject it too)
+				res := outs[ti].Results
+				if len(res) > 0 && res[len(res)-1].Error != nil && *res[len(res)-1].Error == "timed out" && outs[ti].Panic == "" {
+					acc := append([]bool{}, accepted...)
+					acc[ti] = true
+					var spec2 []rfcOut
+					if err := r.Mdl.Call(map[string]interface{}{"fn": "rfcHistory", "model": ts.modelJSON(), "txns": txns[:ti+1], "accepted": acc[:ti+1]}, &spec2); err == nil && len(spec2) == ti+1 {
+						r.Count("wait:timed-out")
+						if !spec2[ti].Rejected && !spec2[ti].Skipped && len(res) <= len(txns[ti].Ops) && txns[ti].Ops[len(res)-1].Op == "wait" {
+							r.Violation("rfc", csT, "timed out", "the wait is satisfied", true,
+								fmt.Sprintf("transaction %d: a zero-timeout wait timed out although its condition holds under RFC 7047 semantics", ti), "")
+							stop = true
+							break
+						}
+					}
+				}
 				continue
 			}
 			sp := spec[ti]
